@@ -609,6 +609,10 @@ func main() {
 		}
 	}
 
+	if os.Getenv("VERIF_C09_ONLY") == "stress" { // development aid: tune the stress phase alone
+		stress(env, rep, rand.New(rand.NewSource(env.Seed)))
+		rep.Finish()
+	}
 	// 1. design check
 	designs := []string{"design2q.cfg", "design2x.cfg", "design3.cfg"}
 	if env.Thorough() {
